@@ -266,7 +266,9 @@ Definition unprotect_rtcp_aead : M Z :=
      if negb (s =? st_ok) then exit_with s else wr_dst enc_start o
    else
      aad <- rd_src 0 (len - tag_len - trailer_len - s_mki_size st) ;;
-     (if b_alias b then ret tt else (d <- rd_src enc_start enc_len ;; wr_dst enc_start d)) ;;;
+     (* the payload without the tag (after the fix: the copy used to include the tag octets and so ran
+        tag_len octets beyond the announced output length) *)
+     (if b_alias b then ret tt else (d <- rd_src enc_start (enc_len - tag_len) ;; wr_dst enc_start d)) ;;;
      t <- rd_src (len - tag_len - s_mki_size st - trailer_len) tag_len ;;
      let '(s, _) := gcm_open (k_rtcp_c k) tag_len iv (aad ++ tr) t 0 in
      if negb (s =? st_ok) then exit_with s else ret tt) ;;;
